@@ -63,7 +63,7 @@ def persistedTables : List (String × String × String) :=
     ("index", "persistIndex", "Indexes"),
     ("connect-intentions", "persistLegacyIntentions", "LegacyIntentions"),
     ("kvs", "persistKVs", "KVs"),
-    ("nodes", "persistNodes", "Nodes"),                                -- through Node.ToRegisterRequest (drops Locality: finding)
+    ("nodes", "persistNodes", "Nodes"),                                -- through Node.ToRegisterRequest (dropped Locality until repaired: regression signature snap:nodes:Locality)
     ("peering", "persistPeerings", "Peerings"),
     ("peering-trust-bundles", "persistPeeringTrustBundles", "PeeringTrustBundles"),
     ("peering-secrets", "persistPeeringSecrets", "PeeringSecrets"),
@@ -80,16 +80,16 @@ def persistedTables : List (String × String × String) :=
 /-- Audited derived tables: never written to the snapshot, rebuilt by restore. Second component: how. -/
 def derivedTables : List (String × String) :=
   [ ("gateway-services",
-      "Restore.ConfigEntry → insertConfigEntryWithTxn → updateGatewayServices (idx = entry.ModifyIndex) and Restore.Registration → ensureServiceTxn → checkGatewayWildcardsAndUpdate / checkGatewayAndUpdate (idx = header.LastIndex); differs from the online rows in indexes, ServiceKind, wildcard-vs-explicit precedence and proxy-only services: findings snap:gateway-services*"),
+      "Restore.ConfigEntry → insertConfigEntryWithTxn → updateGatewayServices (idx = entry.ModifyIndex) and Restore.Registration → ensureServiceTxn → checkGatewayWildcardsAndUpdate / checkGatewayAndUpdate (idx = header.LastIndex); differs from the online rows in indexes, ServiceKind, wildcard-vs-explicit precedence and proxy-only services: known findings snap:gateway-services:*"),
     ("kind-service-names",
-      "Restore.Registration → ensureServiceTxn → upsertKindServiceName with idx = header.LastIndex (preserveIndexes is not consulted): finding snap:kind-service-names:RaftIndex; service-defaults destinations through insertConfigEntryWithTxn"),
+      "Restore.Registration → ensureServiceTxn → upsertKindServiceName with idx = header.LastIndex (preserveIndexes is not consulted): known finding snap:kind-service-names:RaftIndex:rebuilt-at-header-lastindex; service-defaults destinations through insertConfigEntryWithTxn"),
     ("mesh-topology",
-      "Restore.Registration → ensureServiceTxn → updateMeshTopology (idx = header.LastIndex) and gateway config entries → insertGatewayServiceTopologyMapping: findings snap:mesh-topology:*"),
+      "Restore.Registration → ensureServiceTxn → updateMeshTopology (idx = header.LastIndex) and gateway config entries → insertGatewayServiceTopologyMapping (idx = entry.ModifyIndex): known findings snap:mesh-topology:*"),
     ("session_checks", "Restore.Session → insertSessionTxn re-inserts one row per Session.CheckIDs() (modelled: deriveChecks)"),
     ("usage",
-      "txn.Commit of the restore transaction → updateUsage over the change set, idx==0 branch: every row gets max(index[nodes], index[services], index[kvs]); rows that had dropped to 0 are not recreated: findings snap:usage:Index, snap:usage:zero-row-lost"),
+      "txn.Commit of the restore transaction → updateUsage over the change set, idx==0 branch: every row gets max(index[nodes], index[services], index[kvs]); rows that had dropped to 0 are not recreated: known findings snap:usage:Index:restore-uses-max-of-table-indexes, snap:usage:zero-count-row-not-recreated"),
     ("peering-secret-uuids",
-      "Restore.PeeringSecrets re-inserts establishment / pending / active ids (the online dialer path never inserted the active id: finding snap:peering-secret-uuids:rows-added)") ]
+      "Restore.PeeringSecrets re-inserts establishment / pending / active ids (the online dialer path never inserted the active id: known finding snap:peering-secret-uuids:active-secret-added-by-restore)") ]
 
 /-- Deliberately unpersisted tables. -/
 def unpersistedTables : List (String × String) :=
@@ -319,6 +319,29 @@ theorem index_rows_restored_verbatim (s : State) (hi : Sorted idxKey s.index) (r
   have h4 := (mem_insertAll s.index hsorted hi r).mpr (Or.inl hr)
   exact mem_foldl_maxMerge_of_ne _ _ _ (foldl_maxMerge_sorted _ _ _ h4s)
     (mem_foldl_maxMerge_of_ne _ _ _ h4s h4 h₁) h₂
+
+/-- The derived usage row "kvs" after restore depends on the restored tables only — for well-formed states it
+    is the function `usageKvsAfterRestore` of the ORIGINAL state (count = number of keys, index =
+    max(index[nodes], index[services], index[kvs]); absent when there is no key). -/
+theorem usage_after_restore (s : State) (h : WF s) :
+    usageKvsAfterRestore (restore (snapshot s)) = usageKvsAfterRestore s := by
+  rw [restore_snapshot_instance s h]
+
+/-- **Known finding in the model** (`snap:usage:Index:restore-uses-max-of-table-indexes`): a key written at
+    index 3 and a node registered at index 5 — online the usage row "kvs" is (count 1, index 3), the index
+    of the transaction that created the key (harness scenario `usage-index`); after restore it is (1, 5). -/
+theorem usage_index_counterexample :
+    let s : State := { State.empty with index := [⟨kKvs, 3⟩, ⟨kNodes, 5⟩], kvs := [⟨[97], "v", 3⟩] }
+    usageKvsAfterRestore (restore (snapshot s)) = some (1, 5) := by
+  decide
+
+/-- **Known finding in the model** (`snap:usage:zero-count-row-not-recreated`): a key set at 3 and deleted at
+    4 leaves, online, the usage row "kvs" = (count 0, index 4) (harness scenario `usage-zero-row`); the
+    restore transaction sees no kv change and writes no row. -/
+theorem usage_zero_row_counterexample :
+    let s : State := { State.empty with index := [⟨kKvs, 4⟩, ⟨kTombstones, 4⟩], tombs := [⟨[97], 4⟩] }
+    usageKvsAfterRestore (restore (snapshot s)) = none := by
+  decide
 
 /-- The header: `LastIndex` of a snapshot is the maximum over the index rows keyed by a schema table. -/
 theorem header_is_table_max (s : State) : (snapshot s).last = lastIndex s := rfl
